@@ -22,10 +22,10 @@ def generic(run, a, pid, mc_cfgs):
                             "(action, operation type, call, fault, outcome)." % (F.FOCUS[pid], pid, RULES[pid]))
     run.assumptions += F.ASSUME
 
-def c01(run, a): generic(run, a, "C01", {"quick": ["ipam_sts_default.cfg", "ipam_sts_syncall_q.cfg"], "thorough": ["ipam_sts_default_t.cfg", "ipam_sts_immutable.cfg", "ipam_sts_syncall.cfg"]})
+def c01(run, a): generic(run, a, "C01", {"quick": ["ipam_sts_default.cfg", "ipam_sts_syncall_q.cfg"], "thorough": ["ipam_sts_default_t.cfg", "ipam_sts_immutable.cfg", "ipam_sts_syncall.cfg", "ipam_sts_syncall_t.cfg"]})
 def c02(run, a): generic(run, a, "C02", {"quick": ["ipam_sts_immutable_q.cfg"], "thorough": ["ipam_sts_immutable.cfg", "ipam_dp_immutable_q.cfg"]})
 def c03(run, a): generic(run, a, "C03", {"quick": ["ipam_sts_immutable_q.cfg", "ipam_sts_syncall_q.cfg"], "thorough": ["ipam_sts_immutable.cfg", "ipam_dp_immutable_q.cfg", "ipam_sts_syncall.cfg"]})
-def c04(run, a): generic(run, a, "C04", {"quick": ["ipam_sts_default.cfg", "ipam_sts_cloud.cfg", "ipam_sts_syncall_q.cfg"], "thorough": ["ipam_sts_default_t.cfg", "ipam_sts_immutable.cfg", "ipam_sts_cloud.cfg", "ipam_sts_syncall.cfg"]})
+def c04(run, a): generic(run, a, "C04", {"quick": ["ipam_sts_default.cfg", "ipam_sts_cloud.cfg", "ipam_sts_syncall_q.cfg"], "thorough": ["ipam_sts_default_t.cfg", "ipam_sts_immutable.cfg", "ipam_sts_cloud.cfg", "ipam_sts_syncall.cfg", "ipam_sts_syncall_t.cfg"]})
 def c06(run, a): generic(run, a, "C06", {"quick": ["ipam_topo_q.cfg"], "thorough": ["ipam_topo.cfg", "ipam_topo_ranges.cfg"]})
 def c07(run, a): generic(run, a, "C07", {"quick": ["ipam_dp_pool_q.cfg"], "thorough": ["ipam_dp_pool_q.cfg", "ipam_dp_immutable_q.cfg"]})
 def c10(run, a): generic(run, a, "C10", {"quick": ["ipam_sts_cloud.cfg"], "thorough": ["ipam_sts_cloud.cfg", "ipam_sts_default_t.cfg"]})
